@@ -282,7 +282,12 @@ def check_tree(tree, freqs, st, viol, keys, label):
     oks = {n: r[1] for n, r in results.items() if r[0] == "ok"}
     kinds = {n: r[0] for n, r in results.items()}
     if len(set(kinds.values())) > 1 and "crash" not in kinds.values():
-        bad("C01/routes-disagree", f"routes disagree on the outcome: {kinds}")
+        # latitude: an entirely open NESTED connection may raise InfiniteImpedance; the parser merges directly nested
+        # same-kind connections, so the text routes may not even contain that nested connection any more
+        if ref.entirely_open_nested and set(kinds.values()) <= {"ok", "inf", "refuse", "imp"}:
+            st["routes_differ_only_by_nested_open_latitude"] = st.get("routes_differ_only_by_nested_open_latitude", 0) + 1
+        else:
+            bad("C01/routes-disagree", f"routes disagree on the outcome: {kinds}")
     names = sorted(oks)
     for a in names[1:]:
         st["route_pairs"] = st.get("route_pairs", 0) + 1
